@@ -58,7 +58,24 @@ def static_modules():
     return out
 
 
-def _public_defs(path):
+# The hand-written public names documented at the pinned commit (docs/gen_ref_pages.py renders every module's
+# public members). The set derived from the tree under test can only ADD to it: a change that hides one of
+# these names (a new `__all__` that forgets a function, a re-export list that skips a constant) must not be
+# able to remove the name from the oracle together with the object.
+PINNED_PUBLIC_NAMES = (
+    ("eolib.data", "CHAR_MAX"), ("eolib.data", "EoReader"), ("eolib.data", "EoWriter"), ("eolib.data", "INT_MAX"),
+    ("eolib.data", "SHORT_MAX"), ("eolib.data", "THREE_MAX"), ("eolib.data", "decode_number"),
+    ("eolib.data", "decode_string"), ("eolib.data", "encode_number"), ("eolib.data", "encode_string"),
+    ("eolib.encrypt", "deinterleave"), ("eolib.encrypt", "flip_msb"), ("eolib.encrypt", "interleave"),
+    ("eolib.encrypt", "server_verification_hash"), ("eolib.encrypt", "swap_multiples"),
+    ("eolib.packet", "AccountReplySequenceStart"), ("eolib.packet", "InitSequenceStart"),
+    ("eolib.packet", "PacketSequencer"), ("eolib.packet", "PingSequenceStart"), ("eolib.packet", "SequenceStart"),
+    ("eolib.protocol", "ProtocolEnumMeta"), ("eolib.protocol", "SerializationError"),
+    ("eolib.protocol.net", "Packet"),
+)
+
+
+def _public_defs(path, honour_all=True):
     tree = ast.parse(open(path, encoding="utf-8").read())
     names, all_ = [], None
     for node in tree.body:
@@ -74,7 +91,7 @@ def _public_defs(path):
         elif isinstance(node, ast.AnnAssign) and isinstance(node.target, ast.Name) and node.value is not None:
             names.append(node.target.id)
     names = [n for n in names if not n.startswith("_")]
-    if all_ is not None:
+    if all_ is not None and honour_all:
         names = [n for n in names if n in all_]
     return names
 
@@ -93,6 +110,14 @@ def static_public_names():
             if fn.endswith(".py") and fn not in ("__init__.py", "__about__.py") and not fn.startswith("_"):
                 for n in _public_defs(os.path.join(dirpath, fn)):
                     out.append((pkg, n, pkg + "." + fn[:-3]))
+                hidden = set(_public_defs(os.path.join(dirpath, fn), honour_all=False))
+                for n in sorted(hidden):
+                    if (pkg, n) in PINNED_PUBLIC_NAMES and (pkg, n, pkg + "." + fn[:-3]) not in out:
+                        out.append((pkg, n, pkg + "." + fn[:-3]))      # still defined, no longer exported
+    have = {(h, n) for h, n, _ in out}
+    for h, n in PINNED_PUBLIC_NAMES:
+        if (h, n) not in have:
+            out.append((h, n, h))       # no public module defines it any more: it must at least resolve from its home
     return out
 
 
